@@ -794,6 +794,19 @@ class Gen:
             if r.random() < 0.6:
                 # make hits likely: scrutinee reduced to a small range
                 e = ("bin", "%", e, ("lit", t, 4))
+                # the subject as written is a remainder, a cast, a negation or a call result: each is a different producer of
+                # the value the switch lowering must know the type of (seed C09e: a cast as subject lost its type and every
+                # value ran the default arm)
+                c2 = r.random()
+                if c2 < 0.3:
+                    t2 = r.choice([x for x in self.itys if signed(x) == signed(t)] or self.itys)
+                    e = ("cast", ("bin", "%", self.int_expr(t2, env, 1, nonlit=True), ("lit", t2, 4)), t)
+                    self.feat("match-on-cast")
+                elif c2 < 0.4 and signed(t):
+                    e = ("un", "-", e); self.feat("match-on-negation")
+                elif c2 < 0.55 and self.cands(env, lambda f: f[1] == t):
+                    e = ("bin", "%", self.call_expr(t, env, 1), ("lit", t, 4)) if r.random() < 0.5 else self.call_expr(t, env, 1)
+                    self.feat("match-on-call")
                 vals = r.sample([0, 1, 2, 3] + ([-1, -2, -3] if signed(t) else []), r.randint(1, 3))
             else:
                 vals = list({self.lit(t)[2] for _ in range(r.randint(1, 3))})
